@@ -205,6 +205,34 @@ def run_case(ctx, h, tmp):
                     except Exception as e:
                         problems.append(('write-through', f'object {i}.{fname}: `del value.{attr.name}` through the reference raised {type(e).__name__}'))
                     break
+        # the reference value used as a *value*: given to the same single-valued reference of another object of the loaded
+        # resource, when that reference has an opposite: the instance's other end names the new holder
+        if not [p for p in problems if (p[2] if len(p) == 3 else 'none') == 'none']:
+            done = False
+            for (i, fname), (f, coll, vals) in followed.items():
+                want = exp.get((start, i, fname))
+                if done or f.many or f.eOpposite is None or f.eOpposite.containment or want is None or len(want) != len(vals) or not vals:
+                    continue
+                t, wk = vals[0], want[0]
+                if wk is None or wk[0] == start or not hasattr(t, '_proxy_path') or unproxy(t) is not direct[wk[0]][wk[1]]:
+                    continue
+                d = direct[wk[0]][wk[1]]
+                others = [o for j, o in enumerate(direct[start]) if j != i and isinstance(o, f.eContainingClass.python_class)
+                          and o.eGet(f) is None]
+                if not others:
+                    continue
+                o2, g = others[0], f.eOpposite
+                done = True
+                ctx.count('value-of-reference-assigned')
+                try:
+                    o2.eSet(f, t)
+                    back = d.eGet(g)
+                    held = [unproxy(z) for z in (list(back) if g.many else ([back] if back is not None else []))]
+                    if not any(z is o2 for z in held):
+                        problems.append(('write-through', f'object {i}.{fname}: the reference value was given to another object\'s {fname}; '
+                                         f'the instance\'s {g.name} does not name that object'))
+                except Exception as e:
+                    problems.append(('write-through', f'object {i}.{fname}: giving the reference value to another object\'s {fname} raised {type(e).__name__}'))
         # deletion through a reference acts on the instance: whichever way the target is deleted (through the reference
         # value or through the instance found by direct navigation), it leaves its container and nothing in the
         # loaded world refers to it any more
